@@ -505,15 +505,34 @@ impl Gen {
             _ => obj(vec![(key, good)]),
         }
     }
+    /// a long name (30..300 bytes) mixing ASCII with 2-, 3- and 4-byte characters at irregular offsets: whatever
+    /// byte length an implementation clips, pads or indexes at, some of these have a character straddling it
+    fn long_str(&self, r: &mut Rng) -> String {
+        let target = *r.pick(&[30usize, 60, 62, 63, 64, 65, 66, 100, 127, 128, 129, 255, 256, 257, 300]);
+        let mut out = String::new();
+        // an ASCII run of random length first, so that every offset modulo the character width occurs
+        for _ in 0..r.below(5) { out.push(*r.pick(&['a', 'x', '_', '0'])); }
+        while out.len() < target {
+            match r.below(6) {
+                0 | 1 => out.push(*r.pick(&['s', 'e', 't', '_', 'm', 'o', 'd'])),
+                2 => out.push('\u{e9}'),
+                3 => out.push('\u{4e2d}'),
+                4 => out.push('\u{1f600}'),
+                _ => { for _ in 0..r.below(7) { out.push('q'); } }
+            }
+        }
+        out
+    }
     fn method_and_params(&self, r: &mut Rng) -> (String, Option<J>) {
         let m = match r.below(20) {
             0..=13 => r.pick(METHODS).to_string(),
             14..=16 => r.pick(SUB_METHODS).to_string(),
+            17 => if r.chance(1, 2) { self.long_str(r) } else { r.pick(ODD_METHODS).to_string() },
             _ => r.pick(ODD_METHODS).to_string(),
         };
         let p = match m.as_str() {
             "set_mode" => {
-                let v = match r.below(10) { 0..=5 => s(r.pick(&["classic", "enhanced"])), 6 => s(&self.short_str(r)), 7 => s(r.pick(&["Classic", "ENHANCED", "classic ", " enhanced", "", "0", "1"])), _ => self.scalar(r) };
+                let v = match r.below(10) { 0..=5 => s(r.pick(&["classic", "enhanced"])), 6 => if r.chance(1, 3) { s(&self.long_str(r)) } else { s(&self.short_str(r)) }, 7 => s(r.pick(&["Classic", "ENHANCED", "classic ", " enhanced", "", "0", "1"])), _ => self.scalar(r) };
                 Some(self.params_for(r, "mode", v))
             }
             "set_quality" | "set_stall_deselect" => {
@@ -525,11 +544,11 @@ impl Gen {
                 Some(self.params_for(r, "ms", v))
             }
             "subscribe" => {
-                let v = match r.below(8) { 0..=4 => s(r.pick(&["stats", "priority.window"])), 5 => s(r.pick(&["stat", "Stats", "priority", "priority.window ", ""])), _ => self.scalar(r) };
+                let v = match r.below(8) { 0..=4 => s(r.pick(&["stats", "priority.window"])), 5 => if r.chance(1, 3) { s(&self.long_str(r)) } else { s(r.pick(&["stat", "Stats", "priority", "priority.window ", ""])) }, _ => self.scalar(r) };
                 Some(self.params_for(r, "topic", v))
             }
             "unsubscribe" => {
-                let v = match r.below(8) { 0..=4 => s(&format!("sub-{}", r.below(5))), 5 => s(r.pick(&["sub-", "sub-00", "sub-0 ", "0", ""])), _ => self.scalar(r) };
+                let v = match r.below(8) { 0..=4 => s(&format!("sub-{}", r.below(5))), 5 => if r.chance(1, 3) { s(&self.long_str(r)) } else { s(r.pick(&["sub-", "sub-00", "sub-0 ", "0", ""])) }, _ => self.scalar(r) };
                 Some(self.params_for(r, "subscription_id", v))
             }
             _ => match r.below(6) { 0 => Some(self.any(r, 2)), 1 => Some(J::Null), 2 => Some(J::Obj(vec![])), _ => None },
